@@ -98,7 +98,7 @@ Step ==
   /\ l' = l + 1
   /\ LET R == Trace[l]  e == R.e IN
      IF e.t = "init"
-     THEN /\ Reset(e) /\ off' = ~KnownStart(e) /\ div' = div /\ ncmp' = ncmp
+     THEN /\ Reset(e) /\ off' = (~KnownStart(e) \/ e.lax) /\ div' = div /\ ncmp' = ncmp   \* the model's data plane is not permissive
      ELSE IF off \/ R.fatal # "" \/ ~Supported(e) \/ ~ENABLED ModelStep(e)
      THEN /\ off' = TRUE /\ div' = div /\ ncmp' = ncmp /\ UNCHANGED vars
      ELSE /\ ModelStep(e)
